@@ -556,7 +556,11 @@ def ground_truth(case, **extra):
     from sqlfluff.core import Linter
 
     with Project(case, "gt") as pr:
-        lnt = Linter(config=root_config(pr, disable_noqa=True, **extra))
+        # `ignore` and `warnings` are switched off by override as well (not only read around with filter_ignore=False):
+        # the ground truth must not depend on how the code under test represents suppressed violations
+        gt_over = {"ignore": "", "warnings": ""}
+        gt_over.update(extra)
+        lnt = Linter(config=root_config(pr, disable_noqa=True, **gt_over))
         res = lnt.lint_paths((pr.path,), fix=True, apply_fixes=False)
         files = res.paths[0].files
         if not files:
